@@ -161,11 +161,11 @@ fn iv(i: u64, msg_len: usize) -> [u8; 16] {
 
 fn lens(tier: Tier) -> Vec<usize> {
     if tier.is_thorough() {
-        let mut v: Vec<usize> = (0..=260).collect();
+        let mut v: Vec<usize> = (0..=1100).collect();
         v.extend_from_slice(&[511, 512, 513, 4095, 4096, 4097, 20000, 40000]);
         v
     } else {
-        let mut v: Vec<usize> = (0..=80).collect();
+        let mut v: Vec<usize> = (0..=130).collect();
         v.extend_from_slice(&[255, 256, 257, 4096, 20000]);
         v
     }
